@@ -37,6 +37,16 @@ HOF_SYNC = {
     # thread-local access runs its closure before returning (the lazy initialiser too)
     'std::thread::local::LocalKey::with', 'std::thread::local::LocalKey::try_with', 'std::sys::thread_local::native::lazy::Storage::get_or_init',
     'std::sync::once::Once::call_once', 'std::sync::once_lock::OnceLock::get_or_init',
+    'std::panic::catch_unwind', 'std::panicking::try', 'core::iter::traits::iterator::Iterator::reduce', 'core::iter::traits::iterator::Iterator::scan',
+    'core::iter::traits::iterator::Iterator::min_by', 'core::iter::traits::iterator::Iterator::max_by', 'core::iter::traits::iterator::Iterator::is_sorted_by',
+    'core::iter::traits::iterator::Iterator::partition_in_place', 'core::iter::traits::iterator::Iterator::try_find', 'core::iter::traits::iterator::Iterator::sum',
+    'core::iter::traits::double_ended::DoubleEndedIterator::rfind', 'core::iter::traits::double_ended::DoubleEndedIterator::rfold', 'core::iter::traits::double_ended::DoubleEndedIterator::try_rfold',
+    'core::slice::<impl [T]>::sort_unstable_by', 'core::slice::<impl [T]>::sort_unstable_by_key', 'core::slice::<impl [T]>::binary_search_by', 'core::slice::<impl [T]>::binary_search_by_key',
+    'core::slice::<impl [T]>::iter', 'alloc::vec::Vec::dedup_by', 'alloc::vec::Vec::resize_with', 'alloc::collections::vec_deque::VecDeque::resize_with',
+    'core::option::Option::get_or_insert_with', 'core::option::Option::is_some_and', 'core::option::Option::zip_with', 'core::option::Option::unwrap_or_default',
+    'core::result::Result::unwrap_or_default', 'core::cell::Cell::update', 'std::collections::hash::map::Entry::or_insert_with', 'std::collections::hash::map::HashMap::retain',
+    'std::collections::hash::set::HashSet::retain', 'alloc::collections::btree::map::BTreeMap::retain', 'alloc::collections::btree::map::entry::Entry::or_insert_with',
+    'std::thread::scoped::scope', 'core::iter::adapters::peekable::Peekable::next_if', 'core::array::from_fn', 'core::hint::black_box',
 }
 HOF_STORE = {
     'alloc::boxed::Box::new', 'alloc::sync::Arc::new', 'std::sync::poison::mutex::Mutex::new',
